@@ -6,5 +6,5 @@ mkdir -p "$V/work"
 exec 9>"$V/work/repo.lock"
 flock -s 9
 cd "$V/harness"
-[ -f Cargo.lock ] || cp /repo/Cargo.lock Cargo.lock
+cp /repo/Cargo.lock Cargo.lock.$$.tmp && mv Cargo.lock.$$.tmp Cargo.lock
 CARGO_NET_OFFLINE=true cargo build --offline --release -p "$1" 2>&1 | grep -vE "^\s*(Compiling|Checking|Blocking|Locking|Adding|Downloaded)" | head -120
